@@ -40,10 +40,12 @@ pub fn expect(l: Layout, form: Form, ex: &Exact, representable_only: bool) -> Op
             if representable_only {
                 return None;
             }
-            Some(match form {
-                Form::Checked => Out::O(None),
-                _ => Out::Panic,
-            })
+            // a zero divisor: checked returns None; for the other forms the documented panic is permitted by
+            // the properties, not required (C07 quantifies over non-zero divisors only)
+            match form {
+                Form::Checked => Some(Out::O(None)),
+                _ => None,
+            }
         }
         Exact::Val(r) => {
             let fits = l.fits(r);
